@@ -49,6 +49,18 @@ theorem C02_repaired_safe (limit : Option Nat) (fuel : Nat) (t : Ty) (b : Bytes)
     rw [h] at this
     rcases this with rfl | rfl | rfl <;> rfl
 
+/-- **Covering.**  The unchanged decoder (any budgets) returns a value, an error, an exceeded budget, or one of the
+    four outcomes of the two Variant defects (`panicNegLen`; `panicSlice`, `panicIndex`, `diverge` from `split`) —
+    nothing else: the finding signatures below cover every unsafe outcome of the model. -/
+theorem C02_unchanged_outcomes (limit : Option Nat) (fuel : Nat) (t : Ty) (b : Bytes) (a : Nat) :
+    match decode (env limit) fuel t ⟨b, a⟩ with
+    | .ok _ _ => True
+    | .fail f => f = .err ∨ f = .depth ∨ f = .alloc ∨ f = .panicNegLen ∨ f = .panicSlice ∨ f = .panicIndex ∨ f = .diverge := by
+  have := decode_covered (env limit) fuel t ⟨b, a⟩
+  cases h : decode (env limit) fuel t ⟨b, a⟩ with
+  | ok v s => trivial
+  | fail f => rw [h] at this; exact this
+
 /-- the decoder model is a total function and the budgets are the only non-structural exits: without a
     call-depth problem the result does not depend on which larger budget is given — stated for the entry
     point: zero fuel is the only way to get `depth` at the top -/
